@@ -45,9 +45,17 @@ Invalid == [
     nParticles |-> {"zero", "neg", "float"},
     nDim       |-> {"zero", "neg", "float"} ]
 
+\* values the property's list does not classify: an integral-valued float (8.0), a numpy integer.  Either outcome conforms -
+\* rejected at construction, or accepted and the run completes - but "accepted, then the run fails" does not (the configuration
+\* was then neither rejected when the sampler was constructed nor valid).
+Unspecified == [
+    nParticles |-> {"intfloat", "npint"},
+    nDim       |-> {"intfloat", "npint"} ]
+
 Factors == DOMAIN Domain
 
 Valid(c) == \A f \in Factors : c[f] \in Domain[f]
+Classified(c) == \A f \in Factors : c[f] \in Domain[f] \/ (f \in DOMAIN Invalid /\ c[f] \in Invalid[f])
 
 Default == [f \in Factors |-> CHOOSE v \in Domain[f] : TRUE]
 
@@ -56,8 +64,9 @@ Observed == JsonDeserialize(IOEnv.TRACE_FILE)   \* list of [cfg, outcome, evals]
 
 ObsClauses(o) ==
     [CF_ValidRuns     |-> Valid(o.cfg) => o.outcome = "done",
-     CF_InvalidReject |-> (~Valid(o.cfg)) => o.outcome = "rejected",
-     CF_RejectEarly   |-> (~Valid(o.cfg)) => o.evals = 0]
+     CF_InvalidReject |-> (Classified(o.cfg) /\ ~Valid(o.cfg)) => o.outcome = "rejected",
+     CF_RejectEarly   |-> (~Valid(o.cfg) /\ o.outcome # "done") => o.evals = 0,
+     CF_AcceptedRuns  |-> (~Classified(o.cfg)) => o.outcome \in {"rejected", "done"}]
 
 VARIABLES k, fails
 vars == <<k, fails>>
@@ -73,7 +82,7 @@ TypeOK == k \in 1..(Len(Observed) + 1)
 \* ---------------------------------------------------------------- (1) coverage obligations on the observed list
 \* every one-factor-invalid configuration of the property's list has been observed
 AllInvalidObserved ==
-    \A f \in DOMAIN Invalid : \A v \in Invalid[f] :
+    \A f \in DOMAIN Invalid : \A v \in Invalid[f] \cup (IF f \in DOMAIN Unspecified THEN Unspecified[f] ELSE {}) :
         \E j \in DOMAIN Observed : Observed[j].cfg[f] = v /\ \A g \in Factors \ {f} : Observed[j].cfg[g] \in Domain[g]
 
 \* pairwise coverage of the valid product by the observed valid configurations
